@@ -113,6 +113,52 @@ mod core_assumptions {
     }
 }
 
+/// C14 (BOUNDED stand-in, name length <= 5): NoteAny::name_str is Ok exactly for UTF-8 names and then its bytes are the name
+/// bytes without the trailing NULs.  The UTF-8 oracle is a hand-written validator of the Unicode table 3-7 (well-formed
+/// byte sequences), independent of core::str.
+#[cfg(kani)]
+mod c14_name_str {
+    fn utf8_ok(b: &[u8]) -> bool {
+        let n = b.len();
+        let mut i = 0;
+        while i < n {
+            let c = b[i];
+            if c < 0x80 { i += 1; continue; }
+            let cont = |k: usize| k < n && (b[k] & 0xC0) == 0x80;
+            if (0xC2..=0xDF).contains(&c) { if !cont(i + 1) { return false; } i += 2; continue; }
+            if (0xE0..=0xEF).contains(&c) {
+                if !(cont(i + 1) && cont(i + 2)) { return false; }
+                if c == 0xE0 && b[i + 1] < 0xA0 { return false; }
+                if c == 0xED && b[i + 1] > 0x9F { return false; }
+                i += 3; continue;
+            }
+            if (0xF0..=0xF4).contains(&c) {
+                if !(cont(i + 1) && cont(i + 2) && cont(i + 3)) { return false; }
+                if c == 0xF0 && b[i + 1] < 0x90 { return false; }
+                if c == 0xF4 && b[i + 1] > 0x8F { return false; }
+                i += 4; continue;
+            }
+            return false;
+        }
+        true
+    }
+    #[kani::proof]
+    #[kani::unwind(8)]
+    fn c14_name_str_bounded() {
+        let buf: [u8; 5] = kani::any();
+        let len: usize = kani::any();
+        kani::assume(len <= 5);
+        let name = &buf[..len];
+        let note = elf::note::NoteAny { n_type: kani::any(), name, desc: &[] };
+        let mut end = len;
+        while end > 0 && name[end - 1] == 0 { end -= 1; }
+        match note.name_str() {
+            Ok(s) => { assert!(utf8_ok(name)); assert!(s.as_bytes() == &name[..end]); }
+            Err(_) => assert!(!utf8_ok(name)),
+        }
+    }
+}
+
 /// C19 (b): every exported #[repr(C)] structure has the ABI's size and field offsets
 /// (numbers generated from spec/abi_reference.json = glibc <elf.h>; see layout_gen.rs)
 #[cfg(kani)]
